@@ -31,14 +31,16 @@ Lemma splice_partial W head cmd tail out f :
   dollar_loop (S (S f)) W (head ++ [36; 40] ++ cmd ++ [41] ++ tail) [] = Ok (Some (head ++ strip_nl out ++ tail), [cmd]).
 Proof.
   intros (H1 & H2 & H3 & H4 & H5 & H6 & H7 & H8) Hr Hd Ht. rewrite <- Ht.
-  apply dollar_loop_splices; assumption.
+  replace (trim out) with (trim (oracle_out W cmd)) by (unfold oracle_out; rewrite Hr; reflexivity).
+  apply dollar_loop_splices; try assumption. unfold oracle_out. rewrite Hr. exact Hd.
 Qed.
 
-Lemma hang_general W head cmd tail :
+(** since 85ca576: an inner line that does not plan gives the empty replacement, after one call *)
+Lemma unplannable_empty W head cmd tail f :
   word_ok head cmd tail -> run_capture W cmd = None ->
-  forall f log, dollar_loop f W (head ++ [36; 40] ++ cmd ++ [41] ++ tail) log = OutOfFuel.
+  dollar_loop (S (S f)) W (head ++ [36; 40] ++ cmd ++ [41] ++ tail) [] = Ok (Some (head ++ tail), [cmd]).
 Proof.
-  intros (H1 & H2 & H3 & H4 & H5 & H6 & H7 & H8) Hr. apply dollar_loop_hangs; assumption.
+  intros (H1 & H2 & H3 & H4 & H5 & H6 & H7 & H8) Hr. apply dollar_loop_unplannable; assumption.
 Qed.
 
 Lemma word_ok_x : word_ok [] [120] [].
@@ -49,15 +51,6 @@ Proof.
   - left. intros H. repeat (destruct H as [H|H]; [discriminate|]). exact H.
 Qed.
 
-(** echo $(ls >) : the inner line does not plan -- the loop never ends *)
-Definition W_noplan := world_of [] [([120], None)].
-Theorem full_refuted : ~ C11_full.
-Proof.
-  intros H. destruct (H W_noplan [] [120] [] word_ok_x) as [_ H2].
-  destruct (H2 eq_refl) as [f Hf].
-  rewrite (hang_general W_noplan [] [120] [] word_ok_x eq_refl f []) in Hf. discriminate.
-Qed.
-
 (** $(x) where x prints a$1b : the output is used as a replacement template, $1b is read as a reference to a group that does not exist *)
 Definition W_tpl := world_of [] [([120], Some (s2l "a$1b"))].
 Lemma template_witness : forall f, (2 <= f)%nat ->
@@ -65,6 +58,17 @@ Lemma template_witness : forall f, (2 <= f)%nat ->
 Proof.
   intros f Hf. destruct f as [|[|f]]; try lia.
   rewrite !dollar_loop_S. vm_compute. reflexivity.
+Qed.
+
+Theorem full_refuted : ~ C11_full.
+Proof.
+  intros H. destruct (H W_tpl [] [120] [] word_ok_x) as [H1 _].
+  destruct (H1 (s2l "a$1b") eq_refl) as [f Hf].
+  destruct f as [|[|f]].
+  - discriminate.
+  - vm_compute in Hf. discriminate.
+  - change ([] ++ [36; 40] ++ [120] ++ [41] ++ []) with (s2l "$(x)") in Hf.
+    rewrite template_witness in Hf by lia. vm_compute in Hf. discriminate.
 Qed.
 
 (** $(x) where x prints <blank>v<blank><newline> : all surrounding white space goes, not only the newline *)
